@@ -405,6 +405,16 @@ func genGarbage(r *simrt.Rand, pc PeerCfg, state string) garbage {
 			}
 		}
 	}
+	if k >= 9 && state == "opensent" {
+		// a valid OPEN with capabilities for address families that are not configured / unknown
+		o := openSpecFor(pc)
+		o.AddPath = map[uint16]uint8{pick(r, []uint16{2, 25, 16388}): uint8(1 + r.Intn(3))}
+		if pc.IPv6 {
+			delete(o.AddPath, 2)
+			o.AddPath[25] = 3
+		}
+		return garbage{raw: EncodeOpen(o), label: "open_caps_for_unconfigured_family"}
+	}
 	switch k {
 	case 0:
 		b := append([]byte(nil), ka...)
@@ -767,6 +777,19 @@ func genC22(seed uint64) *Plan {
 			}
 		} else {
 			o.AddPath = nil
+		}
+		if r.Chance(0.25) {
+			// capabilities for an address family that is not configured on the session (IPv6 on an
+			// IPv4-only neighbour, or an AFI nobody knows): to be ignored, the OPEN stays valid
+			if o.AddPath == nil {
+				o.AddPath = map[uint16]uint8{}
+			}
+			afi := uint16(25)
+			if !pc.IPv6 && r.Chance(0.6) {
+				afi = 2
+				o.MPv6 = r.Chance(0.5)
+			}
+			o.AddPath[afi] = uint8(1 + r.Intn(3))
 		}
 		if pc.DUTRole != 0 || r.Chance(0.2) {
 			switch r.Intn(4) {
